@@ -184,7 +184,7 @@ def check_cli(case):
 
 
 TOKEN_RE = re.compile(r'"[^"\n]*"?|[A-Z][A-Z0-9]*\$?|\d+\.?\d*|&H[0-9A-F]*|<=|>=|<>|.', re.S)
-EXTREME = ["1E999", "1E-999", "9" * 40, "&HFFFFFF", ".", "1E", "+-1", "65535", "32700", "0", "-", "(", ")", ",", ":", '"', "$", "ELSE", "THEN", "NOT",
+EXTREME = ["100000", "1000000", "000010", "65536", "32768", "2147483648", "4294967296", "1E38", "1E39", "1E999", "1E-999", "9" * 40, "&HFFFFFF", ".", "1E", "+-1", "65535", "32700", "0", "-", "(", ")", ",", ":", '"', "$", "ELSE", "THEN", "NOT",
            "TO", "&H", "1E+", "..", "5.5.5", "99999999999", "%", "@", "#", "\t", "~", "REM", "'", "DATA", ";", "=", "GOTO 99999"]
 
 
